@@ -206,7 +206,7 @@ def emptyPkt : Pkt := { sbn := 0, esi := 0, payload := [], closeObject := true, 
     legacy (D3): "all source bytes transferred and THIS block is drained";
     repaired:    "all source bytes transferred and EVERY open block is drained". -/
 def isLastPacket (P : Params) (srcSent : Nat) (isLastSymbol : Bool) (blocks : List Block) : Bool :=
-  decide (srcSent ≥ P.len) && (if P.legacy then isLastSymbol else blocks.all Block.isEmpty)
+  decide (srcSent ≥ P.len) && isLastSymbol && (P.legacy || blocks.all Block.isEmpty)
 
 /-- the `loop` of `BlockEncoder::read` -/
 def readLoop (P : Params) (force : Bool) : Nat → Enc → Out × Enc
